@@ -149,6 +149,11 @@ def rng(prog, rep):
         if fn.name == "draw_sample":
             in_loop = [s for s in sites if cfg.enclosing_loops(s[0])]
             multi = len(sites) > 1 or in_loop
+            if multi and not in_loop:
+                # draws on mutually exclusive paths (an early return for one case, the general case below it) are ONE draw per call
+                nodes_ = [cfg.node(s[0]) for s in sites]
+                if all(x is not None for x in nodes_) and not any(cfg.reachable(x, y) for x in nodes_ for y in nodes_ if x is not y):
+                    multi = False
             if multi:
                 inst = f"{q}:single-generator"
                 # every draw reads ONE name, bound outside every loop by the same definitions, whose value is
